@@ -12,7 +12,10 @@ type SExpr interface{}
 
 type (
 	SIdent struct{ Name string }
-	SInt   struct{ V int64 }
+	SInt   struct {
+		V   int64
+		Big string // decimal text of a literal that does not fit int64
+	}
 	SStr   struct{ V string }
 	SBool  struct{ V bool }
 	SNil   struct{}
@@ -440,8 +443,10 @@ func (p *sparser) primary() SExpr {
 	switch t.kind {
 	case "int":
 		var v int64
-		fmt.Sscan(t.text, &v)
-		return &SInt{v}
+		if _, err := fmt.Sscan(t.text, &v); err != nil {
+			return &SInt{Big: t.text}
+		}
+		return &SInt{V: v}
 	case "str":
 		return &SStr{t.text}
 	case "id":
